@@ -117,3 +117,26 @@ Definition run_c20 (w : world) (acts : list tact) (j : single) (kind : Z) :=
      sched_out t')
   | EFailure _ _ => (res_out res, [], [])
   end.
+
+(* multi-activity candidate: the implementation's result (activities with insertion indices, in order) is replayed step by step
+   on the shadow tours; returned: certificate verdict, the same numbers as run_c20 (quotes = sums over the steps), the final schedule,
+   and whether every shadow tour is free of waiting (the premise of the cost clause) *)
+Fixpoint shadow_nowait (w : world) (t : list act) (steps : list (nat * act)) : bool :=
+  match steps with
+  | [] => no_waitb t
+  | (idx, a) :: r => no_waitb t && shadow_nowait w (reschedule (wdur w) (insert_after t idx a)) r
+  end.
+
+Definition run_c20_multi (w : world) (acts : list tact) (steps : list (nat * tact)) :=
+  let t := build_tour w acts in
+  let v := w_veh w in
+  let st := map (fun s => (fst s, act_of (snd s))) steps in
+  let '(ok, _) := cert_steps w t st in
+  let t' := apply_steps (wdur w) t st in
+  ((if ok then 1 else 0),
+   [ (if has_jobs t then 0 else 1);
+     route_distance (wdist w) t; total_distance (wdist w) t';
+     route_cost (wdist w) v t; cost_fitness (wdist w) v t';
+     (if no_waitb t then 1 else 0); (if shadow_nowait w t st then 1 else 0);
+     multi_leg (wdur w) (wdist w) t st; cost_estimate_route v t + multi_cost w t st ],
+   sched_out t').
